@@ -134,4 +134,21 @@ CLAIMED['C12'] = (
     'DESIGN.md 3/C12',
 )
 
+CLAIMED['C09'] = (
+    'ordering/dominance rules on the panel map construction and its hand-over, engine-call roles, sample-size flow, placement-gate sibling check (ast + CFG)',
+    'Decides the Python side of the panel mechanism: contiguity is tested (raising) before the map is built; the map is built after sorting and renumbering, as [first,last] positions; '
+    'it is rebuilt before every engine use and handed over in the map slot together with setPanel(True); the sample size and the per-unit draws use the number of individuals; '
+    'variables outside the trajectory operator are refused for the log likelihood however it was passed, the operator absorbs/counts correctly, Monte-Carlo on panel data requires a '
+    'trajectory inside and simulation exactly one per formula. Not decided: the product over rows and the reuse of draws inside the engine.',
+    'DESIGN.md 3/C09',
+)
+CLAIMED['C10'] = (
+    'flow rule on the draw table (names/types from one id manager, column i <-> name i <-> generator of that name), dominance of the seeding, reserved-name gate, record templates of the integration operators (ast + CFG)',
+    'Decides which series reaches which variable: both callers of generate_draws pass draw_types() and draws.names of the same id manager; draw_types pairs a name with the type of the '
+    'expression registered under that name; column i is generated for name i with the generator of its declared type (native before user) and the variable axis is moved last; '
+    'drawId is the position in the sorted names; the generator is seeded before any draw; native names are reserved; MonteCarlo / Integrate / Derive / bioDraws records carry '
+    'the right child and index. Not decided: the mean over draws, quadrature, differentiation (engine).',
+    'DESIGN.md 3/C10',
+)
+
 NOT_APPLICABLE = {f'C{i:02d}': WIP for i in range(1, 20)}
